@@ -135,9 +135,10 @@ def pipeline(name, gen_cmd, stdin_path=None):
         os.remove(cur)
     env = dict(ENV)
     env["TGH_CURRENT"] = cur
-    with open(req, "w") as rq:
+    env["TGH_OUT"] = req          # protocol lines go to the file; whatever the real code prints to stdout is dropped
+    if True:
         stdin = open(stdin_path) if stdin_path else subprocess.DEVNULL
-        p = subprocess.run(gen_cmd, stdout=rq, stderr=subprocess.DEVNULL, env=env, stdin=stdin)
+        p = subprocess.run(gen_cmd, stdout=subprocess.DEVNULL, stderr=subprocess.DEVNULL, env=env, stdin=stdin)
         if p.returncode != 0:
             case = None
             if os.path.exists(cur):
@@ -335,6 +336,14 @@ def regen_tables(tables):
     body.append("def fnLits : List (String × List String) := [")
     body.append(",\n".join("  (%s, %s)" % (lean_str(f["fn"]), lean_list(f["lits"])) for f in tables.get("fn_literals", [])))
     body.append("]")
+    for k, n in [("unicode_alphabetic", "alphaRanges"), ("unicode_lowercase", "lowerRanges")]:
+        rs = tables.get(k, [])
+        body.append("/-- `char::%s` on the non-ASCII code points, as the toolchain's std decides it (inclusive ranges) -/" % ("is_alphabetic" if "alpha" in k else "is_lowercase"))
+        body.append("def %s : List (Nat × Nat) := [" % n)
+        chunk = ["(%d, %d)" % (a, b) for a, b in rs]
+        for i in range(0, len(chunk), 12):
+            body.append("  " + ", ".join(chunk[i:i + 12]) + ("," if i + 12 < len(chunk) else ""))
+        body.append("]")
     body += ["", "end Gen", ""]
     text = "\n".join(body)
     path = os.path.join(d, "Tables.lean")
